@@ -167,7 +167,7 @@ def fetchCase (l : Limits) (constraint : Bool) (pt : Nat) (d : Dec) (opc pos : N
     let oi := d.outIndex - 1
     let ol := (d.outLength + 65535) % 65536
     return ({ b with outLength := ol, outIndex := oi },
-            [(decide (pt ≥ passPositioning), S_invalid_opcode), (decide (d.outIndex < l.preContext), oor), (decide (oi < -1 ∨ oi > ol), oor)])
+            [(decide (pt ≥ passPositioning), S_invalid_opcode), (decide (d.outIndex < l.preContext ∨ d.outIndex ≥ d.outLength), oor), (decide (oi < -1 ∨ oi > ol), oor)])
   else if opc = 33 then                                                 -- ASSOC
     let n ← arg ps 0
     let refs ← assocRefs l constraint d ps n
